@@ -109,10 +109,15 @@ class Pre:
     def __init__(self, case):
         _a, self.dest, self.part = S.paths(case)
         di, pi = case.get('dest_initial'), case.get('part_initial')
-        self.dest_data = bytes.fromhex(di['data']) if di else None
-        self.dest_mode = di['mode'] if di else None
-        self.part_data = bytes.fromhex(pi['data']) if pi else None
-        self.part_mode = pi['mode'] if pi else None
+        # (through a symlink the content/mode are those of its target; a dangling link reads as absent)
+        self.dest_data = bytes.fromhex(di['data']) if (di and di.get('data') is not None) else None
+        self.dest_mode = di['mode'] if (di and di.get('data') is not None) else None
+        self.part_data = bytes.fromhex(pi['data']) if (pi and pi.get('data') is not None) else None
+        self.part_mode = pi['mode'] if (pi and pi.get('data') is not None) else None
+        self.dest_link = di.get('symlink') if di else None
+        self.part_link = pi.get('symlink') if pi else None
+        self.dest_present = di is not None
+        self.part_present = pi is not None
         self.warmup_failed = False
         if case.get('reuse'):
             # the same saver object completed earlier saves: the pre-state is what they left
@@ -134,8 +139,11 @@ class Pre:
         else:
             self.want_mode = 0o666 & ~case.get('umask', 0o022)
         self.body_raises = S.body_raises(case)
-        self.refused_dest = self.dest_data is not None and not self.overwrite
-        self.refused_part = self.part_data is not None and not self.overwrite_part
+        if case.get('reuse'):
+            self.dest_present = self.dest_present or self.dest_data is not None
+            self.part_present = self.part_present or self.part_data is not None
+        self.refused_dest = self.dest_present and not self.overwrite
+        self.refused_part = self.part_present and not self.overwrite_part
 
 
 def _fmt(b):
@@ -160,6 +168,15 @@ def judge(case, pre, r, faults, out, step, second_party=None, retry=True):
                         or (second_party == 'dest' and not pre.overwrite) or second_party == 'part'
                         or ('link' in pre.env and not pre.overwrite))
 
+    # B5 for a part "file" that is a symbolic link: without overwrite_part neither the link nor the file it
+    # points to may be touched (with overwrite_part the property allows re-use, so nothing is demanded)
+    if pre.part_link and pre.refused_part:
+        tgt = S.DIR + '/' + pre.part_link
+        if not fs.is_symlink(pre.part) or fs.read_path(tgt) != pre.part_data:
+            return out.fail('part-file-reused', step,
+                            'a pre-existing part symlink (or the file behind it) was changed without overwrite_part: '
+                            'link still there=%r, target %s -> %s'
+                            % (fs.is_symlink(pre.part), _fmt(pre.part_data), _fmt(fs.read_path(tgt))), **sig)
     if r.exc is None:
         # B2: no exception => the save completed
         must_fail = expected_failure or any(f[2][0] == 'errno' for f in faults if f[0] != 'cleanup-unlink')
@@ -204,7 +221,7 @@ def judge(case, pre, r, faults, out, step, second_party=None, retry=True):
                            _why(pre, faults, second_party)), **sig)
     # B5: a pre-existing part file that made setup refuse is untouched
     if pre.refused_part:
-        if part_now != pre.part_data or fs.mode_of(pre.part) != pre.part_mode:
+        if part_now != pre.part_data or (pre.part_data is not None and fs.mode_of(pre.part) != pre.part_mode):
             return out.fail('part-file-reused', step,
                             'a pre-existing part file was modified without overwrite_part: %s -> %s'
                             % (_fmt(pre.part_data), _fmt(part_now)), **sig)
@@ -216,8 +233,9 @@ def judge(case, pre, r, faults, out, step, second_party=None, retry=True):
         return None
     # B3 / B4
     cleanup_faulted = any(f[0] == 'cleanup-unlink' for f in faults)
-    ours = part_now is not None and fs.lookup(pre.part) != r.pre_inos.get(pre.part)
-    if part_now is not None and not ours and (part_now != pre.part_data or fs.mode_of(pre.part) != pre.part_mode):
+    ours = fs.lexists(pre.part) and fs.binding(pre.part) != r.pre_inos.get(pre.part)
+    if fs.lexists(pre.part) and not ours and (part_now != pre.part_data or
+                                              (pre.part_data is not None and fs.mode_of(pre.part) != pre.part_mode)):
         return out.fail('part-file-reused', step, 'the pre-existing part file was modified in place: %s -> %s'
                         % (_fmt(pre.part_data), _fmt(part_now)), **sig)
     if pre.rm and ours and not cleanup_faulted:
@@ -231,7 +249,7 @@ def judge(case, pre, r, faults, out, step, second_party=None, retry=True):
         c2['body'] = [s for s in case['body'] if s[0] != 'raise']
         r2 = S.run_save(c2, simfs.Plan(), None, fs=fs)
         refused = r2.exc is not None and not pre.overwrite and (
-            fs.read_path(pre.dest) is not None or 'link' in pre.env)
+            fs.lexists(pre.dest) or 'link' in pre.env)
         if r2.exc is not None and not refused:
             return out.fail('retry-fails', step, 'after the failed save (%s) an immediate retry raised %r'
                             % (_why(pre, faults, second_party), r2.exc), **sig)
@@ -371,9 +389,9 @@ def run_case(case):
     if out.violation is None:
         for k, (kind, occ) in enumerate(base.sim.occ):
             for who in ('dest', 'part'):
-                if who == 'dest' and pre.dest_data is not None:
+                if who == 'dest' and pre.dest_present:
                     continue
-                if who == 'part' and (pre.part_data is not None or kind != 'open' or base.sim.trace[k][1] != pre.part):
+                if who == 'part' and (pre.part_present or kind != 'open' or base.sim.trace[k][1] != pre.part):
                     continue
                 if who == 'dest' and (k == 0 or any(p[0] < k for p in base.sim.publish)):
                     continue
